@@ -1,7 +1,8 @@
 /-
 Driver ops of the C11 extension for Model/C11MonoNovel.lean (`construct_monoexon_novel` from the clusters on):
   X.mono_novel        {cutoff, storage, polya, polyt, variant: "fixed"|"buggy"} -> models added to the storage
-  T.mirror_cluster    the transformation of a cluster (Python twin checked against it)
+  X.mono_votes        {reads: [{id, iv, polya, polyt}], variant: "fixed"|"shared"} -> ids of the reads entering the polyA / polyT clusters
+  T.mirror_cluster / T.mirror_read   the transformations (Python twins checked against them)
 -/
 import IsoVerif.Driver.Core
 import IsoVerif.Model.C11MonoNovel
@@ -20,6 +21,10 @@ def jCluster (fw : Bool) (j : Json) : Except String Cluster := do
 def ofCluster (c : Cluster) : Json :=
   Json.mkObj [("forward", Json.bool c.forward), ("three", ofInt c.three), ("reads", ofIvList c.reads)]
 
+def jMRead (j : Json) : Except String MRead := do
+  pure { id := ← jNat (← arg j "id"), iv := ← jIv (← arg j "iv"), polyA := ← jInt (← arg j "polya"),
+         polyT := ← jInt (← arg j "polyt") }
+
 def ops : List (String × Handler) := [
   ("X.mono_novel", fun j => do
       let cutoff ← jNat (← arg j "cutoff")
@@ -31,6 +36,17 @@ def ops : List (String × Handler) := [
       pure (match r with
         | none => jErr "error"
         | some l => Json.arr ((l.drop st.length).map ofMModel).toArray)),
+  ("X.mono_votes", fun j => do
+      let rs ← jList jMRead (← arg j "reads")
+      let variant ← jStr (← arg j "variant")
+      let ids : List MRead → Json := fun l => Json.arr (l.map (fun r => ofNat r.id)).toArray
+      pure (if variant == "shared" then
+              Json.mkObj [("polya", ids (votersOfShared true rs)), ("polyt", ids (votersOfShared false rs))]
+            else Json.mkObj [("polya", ids (votersOf true rs)), ("polyt", ids (votersOf false rs))])),
+  ("T.mirror_read", fun j => do
+      let L ← jInt (← arg j "L")
+      let r := mirrorMRead L (← jMRead j)
+      pure (Json.mkObj [("id", ofNat r.id), ("iv", ofIv r.iv), ("polya", ofInt r.polyA), ("polyt", ofInt r.polyT)])),
   ("T.mirror_cluster", fun j => do
       let L ← jInt (← arg j "L")
       let c ← jCluster (← jBool (← arg j "forward")) j
